@@ -34,6 +34,27 @@ def impl_tourlen(inst_or_matrix, x):
         return "OOB"
 
 
+def impl_objective(ck: Check, inst, x, v, M):
+    """the objective object a user optimises with: `TourLength(inst).evaluate` on a tour in the integer type of the
+    permutation space (int8 for small n, ...) must be the kernel's value, its bounds the instance's bounds"""
+    import numpy as np
+    from moptipy.spaces.permutations import Permutations
+    from moptipyapps.tsp.tour_length import TourLength
+    n = len(x)
+    if n < 2 or sorted(x) != list(range(n)) or v == "OOB":
+        return
+    f = TourLength(inst)
+    xa = np.array(x, dtype=Permutations.standard(n).dtype)
+    got = int(f.evaluate(xa))
+    ctx = {"M": M if n <= 12 else f"<{n} cities>", "x": x, "x_dtype": str(xa.dtype)}
+    ck.spec(got == v, "objective_evaluate", f"TourLength.evaluate={got} on the {xa.dtype} tour, kernel on the int64 tour={v}", ctx)
+    ck.spec(xa.tolist() == list(x), "objective_evaluate", "TourLength.evaluate modified the tour", ctx)
+    ck.spec(f.lower_bound() == inst.tour_length_lower_bound and f.upper_bound() == inst.tour_length_upper_bound,
+            "objective_bounds", f"objective bounds [{f.lower_bound()}, {f.upper_bound()}] are not the instance's "
+            f"[{inst.tour_length_lower_bound}, {inst.tour_length_upper_bound}]", ctx)
+    ck.count(f"objective_x_{xa.dtype}")
+
+
 def rand_matrix(rng, n, hi, sym, zero_frac=0.0):
     M = [[0] * n for _ in range(n)]
     for i in range(n):
@@ -99,6 +120,25 @@ def gen_cases(ck: Check):
             rng.shuffle(t)
             tours.append(t)
         yield "random", 0, M, rng.choice([1, 1, 1, 3]), tours
+    # nearly symmetric matrices: large entries whose mirror differs by a few units in ONE pair only (a tolerance-based
+    # comparison would call them symmetric), and exactly symmetric ones of the same magnitude
+    for _ in range(40 if quick else 400):
+        n = rng.choice([2, 3, 4, 6, 9])
+        hi = rng.choice([10**5, 10**6, 10**9, 10**12])
+        M = rand_matrix(rng, n, hi, True)
+        for i in range(n):
+            for j in range(n):
+                if i != j:
+                    M[i][j] += hi          # every entry >= hi: relative differences of a few units are tiny
+        for i in range(n):
+            for j in range(i):
+                M[i][j] = M[j][i]
+        if rng.random() < 0.7:
+            i, j = rng.sample(range(n), 2)
+            M[i][j] += rng.choice([1, 1, 2, 5, -1, -3])
+        t = list(range(n))
+        rng.shuffle(t)
+        yield "near_symmetric", 0, M, 1, [t, t[::-1]]
     # non-permutation / out-of-range tours against the raw kernel (model says OOB exactly when numba would leave the array)
     for _ in range(20):
         n = rng.randint(2, 5)
@@ -149,6 +189,8 @@ def streams(ck: Check) -> None:
             if len(M) != len(M[0]) if M else True:
                 continue
             v = impl_tourlen(target, x)
+            if inst is not None:
+                impl_objective(ck, inst, x, v, M)
             line = f"tspL {fmt_matrix(M)} ; {fmt_ints(x)}"
             ops.append(line)
             expect.append(("tspL", stream, v, (inst, lb, x, M)))
@@ -161,6 +203,7 @@ def streams(ck: Check) -> None:
             if k:
                 ck.rng.shuffle(x)
             v = impl_tourlen(inst, x)
+            impl_objective(ck, inst, x, v, M)
             line = f"tspL {fmt_matrix(M)} ; {fmt_ints(x)}"
             ops.append(line)
             expect.append(("tspL", "shipped:" + nm, v, (inst, 0, x, M)))
